@@ -237,14 +237,14 @@ class Gen:
                 sc.add("flog", "flog %s %s" % (hx(oid), hx(p)), kind="flog", id=oid)
         sc.add("diffstaged", "diffstaged %s" % hx(oid), kind="diff", id=oid)
 
-    def commit(self, oid, root=None, meta=None):
+    def commit(self, oid, root=None, meta=None, created=None):
         sc, rng = self.sc, self.rng
         user = rng.choice(USERS + [None] + (H_META if self.hostile else []))
         addr = rng.choice(ADDRS + (H_META[:3] if self.hostile else [])) if user else None
         msg = rng.choice(["first", "update", None, "mësságe with \"quotes\""] + (H_META if self.hostile else []))
         if meta:
             user, addr, msg = meta
-        created = self.ts()
+        created = created or self.ts()
         if root is None and self.layout[0] == "none":
             root = "objects/o%d" % self.ids.index(oid) if self.hostile else "objects/" + oid.replace(":", "_")
         h = "commit %s %s %s %s %s %s %d" % (hx(oid), hx(root) if root else "-", hx(user) if user else "-",
@@ -332,6 +332,48 @@ class Gen:
         self.commit(oid)
         self.observe_staged(oid)
 
+    def unicode_dirs(self, oid):
+        """internal recursive copies and moves of directories whose names are not ASCII: the destination paths are built
+        from the part of the source path below the copied directory"""
+        sc, rng = self.sc, self.rng
+        n = len(sc.steps)
+        tree = {"donn\u00e9es/2024/rapport.txt": b"r", "donn\u00e9es/2024/sub/x.bin": b"x", "\U0001F4C1/docs/file.txt": b"f", "\u00e9\u00e9/a/f1.txt": b"1", "\u00e9\u00e9/b/g1.txt": b"2"}
+        for rel, b in tree.items():
+            self.mkfile("u%d/%s" % (n, rel), b + str(n).encode())
+        for top in ("donn\u00e9es", "\U0001F4C1", "\u00e9\u00e9"):
+            sc.add("cpx", "cpx %s 1 %s %s" % (hx(oid), hx("/"), hx("u%d/%s" % (n, top))), kind="mut", id=oid)
+        if rng.random() < 0.6:
+            self.commit(oid)
+        sc.add("cpi", "cpi %s - 1 %s %s" % (hx(oid), hx("backup-latin"), hx("donn\u00e9es/2024")), kind="mut", id=oid)
+        sc.add("cpi", "cpi %s - 1 %s %s" % (hx(oid), hx("backup-emoji"), hx("\U0001F4C1/docs")), kind="mut", id=oid)
+        sc.add("mvi", "mvi %s %s %s %s" % (hx(oid), hx("merged"), hx("\u00e9\u00e9/a"), hx("\u00e9\u00e9/b")), kind="mut", id=oid)
+        self.observe_staged(oid)
+        self.commit(oid)
+        self.observe_staged(oid)
+
+    def sibling_dirs(self, oid):
+        """a recursive operation on a directory while the object also holds directories whose names merely start with
+        that directory's name (d1 next to d12/ and d1x/): only the directory itself may be affected"""
+        sc, rng = self.sc, self.rng
+        for src in ("d1", "d12", "d1x"):
+            sc.add("cpx", "cpx %s 1 %s %s" % (hx(oid), hx("/"), hx(src)), kind="mut", id=oid)
+        if rng.random() < 0.7:
+            self.commit(oid)
+        k = rng.choice(["rm", "cpi", "mvi", "reset"])
+        if k == "rm":
+            sc.add("rm", "rm %s 1 %s" % (hx(oid), hx("d1")), kind="mut", id=oid)
+        elif k == "cpi":
+            sc.add("cpi", "cpi %s - 1 %s %s" % (hx(oid), hx("copy-of-d1"), hx("d1")), kind="mut", id=oid)
+        elif k == "mvi":
+            sc.add("mvi", "mvi %s %s %s" % (hx(oid), hx("moved-d1"), hx("d1")), kind="mut", id=oid)
+        else:
+            sc.add("rm", "rm %s 1 %s" % (hx(oid), hx("d12")), kind="mut", id=oid)
+            sc.add("rm", "rm %s 0 %s" % (hx(oid), hx("d1/x.txt")), kind="mut", id=oid)
+            sc.add("resetp", "resetp %s 1 %s" % (hx(oid), hx("d1")), kind="mut", id=oid)
+        self.observe_staged(oid)
+        self.commit(oid)
+        self.observe_staged(oid)
+
     def twin_create(self):
         """both clients create the same new object in their own staging areas; the first commit wins, the second
         must be refused (also without a storage layout, where the two would be stored under different roots)"""
@@ -363,17 +405,24 @@ class Gen:
         self.mkfile(rel, ("lookalike %d" % n).encode())
         self.mkfile(rel2, ("later %d" % n).encode())
         root = ("objects/%s" % oid) if self.layout[0] == "none" else None
+        # either the time of the commit differs, or even that is the same and the re-created version holds one file more
+        same_time = rng.random() < 0.5
+        when = self.ts() if same_time else None
         sc.add("client", "client 0", kind="skipd")
         sc.add("new", "new %s sha512 %s 0 -" % (hx(oid), hx("content")), kind="mut", id=oid, cdir="content")
         sc.add("cpx", "cpx %s 0 %s %s" % (hx(oid), hx("d/"), hx(rel)), kind="mut", id=oid)
-        self.commit(oid, root=root, meta=meta)
+        self.commit(oid, root=root, meta=meta, created=when)
         sc.add("cpx", "cpx %s 0 %s %s" % (hx(oid), hx("later/"), hx(rel2)), kind="mut", id=oid)
         sc.add("client", "client 1", kind="skipd")
         sc.add("purge", "purge %s" % hx(oid), kind="mut", id=oid)
         cd2 = rng.choice(["content", "data"])
         sc.add("new", "new %s sha512 %s 0 -" % (hx(oid), hx(cd2)), kind="mut", id=oid, cdir=cd2)
         sc.add("cpx", "cpx %s 0 %s %s" % (hx(oid), hx("d/"), hx(rel)), kind="mut", id=oid)
-        self.commit(oid, root=root, meta=meta)
+        if same_time:
+            rel3 = "look%d/h.txt" % n
+            self.mkfile(rel3, ("one more %d" % n).encode())
+            sc.add("cpx", "cpx %s 0 %s %s" % (hx(oid), hx("d/"), hx(rel3)), kind="mut", id=oid)
+        self.commit(oid, root=root, meta=meta, created=when)
         sc.add("client", "client 0", kind="skipd")
         self.commit(oid, root=root, meta=meta)
         sc.add("resetall", "resetall %s" % hx(oid), kind="mut", id=oid)
@@ -438,6 +487,12 @@ class Gen:
             return
         if 0.17 <= r0 < 0.22:
             self.staged_alias(oid)
+            return
+        if 0.22 <= r0 < 0.25:
+            self.unicode_dirs(oid)
+            return
+        if 0.25 <= r0 < 0.29:
+            self.sibling_dirs(oid)
             return
         if self.two_clients and rng.random() < 0.35:
             sc.add("client", "client %d" % rng.randint(0, 1), kind="skipd")
